@@ -80,10 +80,17 @@ def ref_concrete(text, extended):
 def sc_c05_chars(ctx, p):
     """all strings of p['L'] symbolic characters: tokenizer and parser (plain and extended) vs the reference"""
     I = interp(); I.ctx = ctx; I.steps = 0
-    L = p['L']
-    cs = [z3.BitVec(f'c{i}', 32) for i in range(L)]
-    for c in cs: ctx.assume(char_domain(c))
     out = {'ok': True, 'why': None}
+    if p.get('templates'):
+        ts = c05_templates()
+        ti = ctx.choose(len(ts), 'template'); cs = [ord(ch) for ch in ts[ti]]; out['group'] = ts[ti]
+        for j in range(p.get('edits', 0)):
+            pos = ctx.choose(len(cs), f'pos{j}')
+            ch = z3.BitVec(f'e{j}', 32); ctx.assume(char_domain(ch)); cs[pos] = ch
+    else:
+        L = p['L']
+        cs = [z3.BitVec(f'c{i}', 32) for i in range(L)]
+        for c in cs: ctx.assume(char_domain(c))
     def fail(why):
         out['ok'] = False; out['why'] = why; out['text'] = concretize(ctx.model(), cs)
         return out
@@ -123,6 +130,17 @@ def sc_c05_chars(ctx, p):
         if not okv: return fail('plain and extended parsers give different trees')
     if res.get(True) is not None and res.get(False) is not None and _has_ext(res[False]): return fail('plain parser produced a wild-card / domain')
     if res.get(True) is not None and _has_ext(res[True]) and res.get(False) is not None: return fail('plain parser accepts a formula with wild-cards / domains')
+    return out
+
+def c05_templates():
+    """every spelling of every hybrid operator, with / without a domain, at top level / inside parentheses / after another
+    hybrid operator; plus identifier shapes next to keywords"""
+    out = []
+    for sym in ('!', '3', 'V', '@', '\\bind ', '\\exists ', '\\forall ', '\\jump '):
+        for dom in ('', ' in %d%'):
+            head = sym + '{x}' + dom + ':'
+            out += [head + ' AX {x}', 'p & (' + head + ' AX {x})', '!{y}: ' + head + ' {y}']
+    out += ['EXa & EX a', 'AUx AU AU1', '3x | V_1', 'E & A', 'EW EW EW', 'a <=> b => c | d ^ e & f EU g', '~~EX~AG a', '(a)(b)', 'a ( b )', '{x} {y}', '%a%%b%', 'true & True & 1 | false | False | 0']
     return out
 
 def _b(x): return x if z3.is_expr(x) else z3.BoolVal(bool(x))
@@ -305,7 +323,7 @@ def sc_c06(ctx, p):
         elif root[0] == 'jump': phi = ('jump', o('v'), child('c0'))
         else: phi = child('c0')
     tree = TR.build(I, phi)
-    out = {'ok': True, 'root': str(root)}
+    out = {'ok': True, 'root': str(root), 'group': ' '.join(map(str, root))}
     def fail(why, m=None):
         m = m or ctx.model()
         out.update({'ok': False, 'why': why, 'tree': tree_to_json(_conc_tree(phi, m))}); return out
@@ -427,7 +445,7 @@ def sc_c07(ctx, p):
     tree = TR.build(I, phi)
     r = I.run(I.fn('validate_props_and_rename_vars'), [tree, Ptr(Cell(biomodel.CtxObj(M)))])
     ok, exp, depth = oracle_rename(ctx, phi, M.names)
-    out = {'ok': True, 'accepted': ok}
+    out = {'ok': True, 'accepted': ok, 'group': 'skeleton ' + str(sks.index(sk) if p.get('only') is None else p['only'][sks.index(sk)])}
     def fail(why, m=None):
         m = m or ctx.model()
         out.update({'ok': False, 'why': why, 'tree': tree_to_json(_conc_tree(phi, m))}); return out
